@@ -1199,6 +1199,30 @@ def handwritten_mixed():
     f5 = dict(uint_field("rng", [(10, 11)]), attr_text="#[bits([10..=11], rw)]", form="list")
     f6 = dict(sint_field("desc", [(15, 15), (14, 14), (13, 13), (1, 1), (0, 0), (23, 23), (22, 22), (21, 21)]), attr_text="#[bit([15, 14, 13, 1, 0, 23, 22, 21], rw)]")
     out.append(bitfield_case("mh_spell", "mixed", 24, [f1, f2, f3, f4, f5, f6], name="Reg", default=default_spec(0)))
+    # attribute arguments in every order: strided arrays with range / access / stride permuted (an explicit stride written before the
+    # range must survive), scalars with the access specifier first
+    import itertools
+    perms = list(itertools.permutations(range(3)))
+    for k, (base, sc) in enumerate(((64, 1), (60, 1), (128, 2))):
+        fs = []
+        for j, p in enumerate(perms):
+            f = uint_field("a%d" % j, [(3 * j * sc, 3 * j * sc + 2 * sc - 1)], array=arr(3, 20 * sc, syntax="=" if j % 2 == 0 else ":"))
+            f["arg_order"] = list(p)
+            fs.append(f)
+        f = bool_field("fl", 18 * sc, array=arr(3, 20 * sc))
+        f["arg_order"] = [2, 0, 1]
+        fs.append(f)
+        if base != 60:
+            f = uint_field("li", [(59 * sc, 59 * sc), (61 * sc, 61 * sc)], array=arr(2, 1))
+            f["arg_order"] = [2, 1, 0]
+            fs.append(f)
+            f = bool_field("top", base - 1)
+            f["arg_order"] = [1, 0]
+            fs.append(f)
+        f = uint_field("s", [(38, 39)], access="r") if sc == 2 else uint_field("s", [(19, 19)], access="r")
+        f["arg_order"] = [1, 0]
+        fs.append(f)
+        out.append(bitfield_case("mh_argord%d" % k, "mixed", base, fs, name="Reg", default=(default_spec(0) if k else None)))
     # one-bit fields spelled as a range (lo == hi)
     f1 = uint_field("x", [(3, 3)])
     f1["form"] = "bits"
